@@ -399,7 +399,7 @@ def drv_growth(tier, shard, per):
                 bound='shard %d: %d draws of Demographics1D.growth(nu,T) / bottlegrowth_1d(nuB,nuF,T) (nu as a function of time), '
                       'nu in [0.05,20], T in [0.005,3] log-uniform, n in 2..%d, pts=(p,p+10,p+20), p=max(60,n+30), linear/log '
                       'extrapolation; oracle: Kingman death process on the exact coalescent clock of exponential growth (mpmath '
-                      'quadrature); 1.5%% at timescale_factor=1e-4 and error ratio in [1.5,2.6] where measurable.' % (shard, per, nmax))
+                      'quadrature); 1.5%% at timescale_factor=1e-4 and first-order error ratios in [1.5,2.6] (as in coal.*) where the epoch is >= 40 steps.' % (shard, per, nmax))
     tf_saved = Integration.timescale_factor
     try:
         corners = [('growth', 1.0, 20.0, 0.05), ('growth', 1.0, 0.05, 3.0), ('bottle', 0.05, 20.0, 0.3), ('bottle', 20.0, 0.05, 1.0),
@@ -410,7 +410,7 @@ def drv_growth(tier, shard, per):
             kind = 'growth' if i % 2 == 0 else 'bottle'
             nuF = lu(0.05, 20)
             nuB = 1.0 if kind == 'growth' else lu(0.05, 20)
-            lo = 0.005 if i % 4 >= 2 else min(max(0.005, 0.08 * max(nuB, nuF)), 3.0)
+            lo = 0.005 if i % 4 >= 2 else min(max(0.005, 0.32 * max(nuB, nuF)), 3.0)
             cases.append((kind, nuB, nuF, lu(lo, 3)))
         for kind, nuB, nuF, T in cases:
             n = d.rng.randint(2, nmax)
@@ -434,7 +434,7 @@ def drv_growth(tier, shard, per):
             info = dict(model=kind, nuB=nuB, nuF=nuF, T=T, n=n, pts=pts, log_extrap=log)
             key = (kind, nuB, nuF, T, n, log)
             F0, floor = _onepct_case(d, key, run, want, info, 'growth-1.5pct')
-            _ratio_case(d, key, run, want, T / (40.0 * max(nuB, nuF)), F0, floor, info)
+            _ratio_case(d, key, run, want, T / (160.0 * max(nuB, nuF)), F0, floor, info)    # >= 40 steps: nu varies within the epoch
     finally:
         Integration.timescale_factor = tf_saved
     return d.results()
